@@ -1,5 +1,7 @@
 (* C20 — matplotlib plots draw the field's own numbers at their physical coordinates.
-   ONLY statements, each closed by [exact] of a lemma proved in proofs/C20_plot.v. *)
+   ONLY statements, each closed by [exact] of a lemma proved in proofs/C20_plot.v.
+   matplotlib's placement semantics is the DEFINITION [displayed_cell] / [arrow_index] of
+   model/Plot.v (trusted); numpy.arctan2 and colorsys enter as Section variables / tables. *)
 From DF Require Import Prelude Constants_gen Region Mesh Plot C20_plot.
 Open Scope Q_scope.
 
@@ -9,3 +11,152 @@ Theorem C20_transpose : forall (V : Type) (k0 k1 : nat) (a : nat -> nat -> V) (r
   nth c (nth r (transpose_rows k0 k1 a) []) d = a c r.
 Proof. exact transpose_rows_nth. Qed.
 Print Assumptions C20_transpose.
+
+(* scalar / contour data: shape (n1, n0); entry = the field's own value, NaN iff hidden *)
+Theorem C20_scalar_values : forall f flt r c, (r < n1 f)%nat -> (c < n0 f)%nat ->
+  nth c (nth r (scalar_values f flt) []) None =
+  if hidden f flt c r then None else Some (fval f 0 c r).
+Proof. exact scalar_values_nth. Qed.
+Print Assumptions C20_scalar_values.
+
+(* the value painted over the plot position (x, y) is the value of the mesh cell that contains
+   (x*m, y*m) (m = the chosen multiplier); NaN iff that cell is hidden.  All sizes, all scales. *)
+Theorem C20_scalar_position : forall f mu flt im lo0 lo1 hi0 hi1,
+  plot_scalar f mu flt = OK im ->
+  pmin (preg f) = [lo0; lo1] -> pmax (preg f) = [hi0; hi1] ->
+  lo0 < hi0 -> lo1 < hi1 -> (0 < n0 f)%nat -> (0 < n1 f)%nat ->
+  exists m p, setup_multiplier (preg f) mu = OK (m, p) /\ 0 < m /\
+  forall x y, lo0 <= x * m -> x * m < hi0 -> lo1 <= y * m -> y * m < hi1 ->
+  exists i j, (i < n0 f)%nat /\ (j < n1 f)%nat /\
+    (let c0 := cell_of lo0 hi0 (Z.of_nat (n0 f)) in
+     lo0 + inject_Z (Z.of_nat i) * c0 <= x * m /\ x * m < lo0 + (inject_Z (Z.of_nat i) + 1) * c0) /\
+    (let c1 := cell_of lo1 hi1 (Z.of_nat (n1 f)) in
+     lo1 + inject_Z (Z.of_nat j) * c1 <= y * m /\ y * m < lo1 + (inject_Z (Z.of_nat j) + 1) * c1) /\
+    displayed_cell (im_rows im) (im_extent im) None x y =
+      if hidden f flt i j then None else Some (fval f 0 i j).
+Proof. exact scalar_position. Qed.
+Print Assumptions C20_scalar_position.
+
+Example C20_scalar_position_nonvacuous :
+  exists im, plot_scalar witness_field MDefault None = OK im /\
+             displayed_cell (im_rows im) (im_extent im) None (3 # 2) (1 # 2) = None /\
+             displayed_cell (im_rows im) (im_extent im) None (7 # 2) (3 # 2) = Some 7.
+Proof. eexists. split; [vm_compute; reflexivity|]. split; vm_compute; reflexivity. Qed.
+
+(* hiding, default filter: NaN iff the cell is invalid; valid cells carry their own value *)
+Theorem C20_hidden_default : forall f r c, (r < n1 f)%nat -> (c < n0 f)%nat ->
+  (nth c (nth r (scalar_values f None) []) None = None <-> fvalid f c r = false) /\
+  (fvalid f c r = true -> nth c (nth r (scalar_values f None) []) None = Some (fval f 0 c r)).
+Proof. exact scalar_default_hidden_iff. Qed.
+Print Assumptions C20_hidden_default.
+
+(* hiding, explicit filter: "NaN iff invalid or filtered" under the guard that the filter vanishes
+   on the invalid cells (the faithful model REPLACES the validity mask by the filter) *)
+Theorem C20_hidden_partial : forall f a r c, (r < n1 f)%nat -> (c < n0 f)%nat ->
+  (fvalid f c r = false -> resample_aux a (n0 f) (n1 f) c r == 0) ->
+  (nth c (nth r (scalar_values f (Some a)) []) None = None <->
+   (fvalid f c r = false \/ resample_aux a (n0 f) (n1 f) c r == 0)).
+Proof. exact scalar_hidden_partial. Qed.
+Print Assumptions C20_hidden_partial.
+
+(* without the guard the statement is false of the code (known finding
+   C20-explicit-filter-drops-validity): an invalid cell is drawn *)
+Theorem C20_hidden_refuted :
+  exists f a r c, (r < n1 f)%nat /\ (c < n0 f)%nat /\ fvalid f c r = false /\
+    exists im, plot_scalar f MDefault (Some a) = OK im /\
+               nth c (nth r (im_rows im) []) None = Some (fval f 0 c r).
+Proof. exact scalar_hidden_refuted. Qed.
+Print Assumptions C20_hidden_refuted.
+
+(* vector plot: the arrow of cell (i, j) (quiver index j*n0 + i) carries the field's own
+   component, is NaN (not drawn) iff the cell is invalid; a missing component is 0 *)
+Theorem C20_vector_components : forall f k i j, (i < n0 f)%nat -> (j < n1 f)%nat ->
+  nth (arrow_index (n0 f) j i) (arrow_values f k) None =
+  match k with
+  | Some k => if fvalid f i j then Some (fval f k i j) else None
+  | None => Some 0
+  end.
+Proof. exact arrow_values_nth. Qed.
+Print Assumptions C20_vector_components.
+
+(* ... sits at (xs[i], ys[j]) of the two coordinate vectors ... *)
+Theorem C20_vector_grid : forall (xs ys : list Q) i j d, (i < length xs)%nat -> (j < length ys)%nat ->
+  nth (arrow_index (length xs) j i) (ravel_rows (map (fun _ => xs) ys)) d = nth i xs d /\
+  nth (arrow_index (length xs) j i) (ravel_rows (map (fun y => map (fun _ => y) xs) ys)) d = nth j ys d.
+Proof. intros; split; [now apply meshgrid_x_nth | now apply meshgrid_y_nth]. Qed.
+Print Assumptions C20_vector_grid.
+
+(* ... which are the cell centres pmin + (i + 1/2) cell, divided by the multiplier (also the
+   coordinates handed to contour) *)
+Theorem C20_centres : forall r k a m i lo hi,
+  nth a (pmin r) 0 = lo -> nth a (pmax r) 0 = hi -> lo < hi -> (i < k)%nat ->
+  length (centres r k a m) = k /\
+  nth i (centres r k a m) 0 ==
+    (lo + (inject_Z (Z.of_nat i) + (1 # 2)) * cell_of lo hi (Z.of_nat k)) / m.
+Proof. exact centres_nth. Qed.
+Print Assumptions C20_centres.
+
+(* component selection: through the reversed mapping (sound, and unique when no two components
+   share an axis) or the two given labels *)
+Theorem C20_mapping_sound : forall d m k, rev_lookup d m = Some k -> In (k, Some d) m.
+Proof. exact rev_lookup_sound. Qed.
+Print Assumptions C20_mapping_sound.
+
+Theorem C20_mapping_complete : forall d m k,
+  In (k, Some d) m -> (forall k1 k2, In (k1, Some d) m -> In (k2, Some d) m -> k1 = k2) ->
+  rev_lookup d m = Some k.
+Proof. exact rev_lookup_complete. Qed.
+Print Assumptions C20_mapping_complete.
+
+Theorem C20_arrow_names : forall f,
+  (pmap f <> [] -> arrow_names f None = OK (r_dim f 0, r_dim f 1)) /\
+  (forall a b, arrow_names f (Some [a; b]) = OK (a, b)).
+Proof. intros f; split; [apply arrow_names_default | apply arrow_names_given]. Qed.
+Print Assumptions C20_arrow_names.
+
+(* axis labels: "dim (prefix unit)" with the prefix of the chosen multiplier *)
+Theorem C20_labels : forall f mu flt im, plot_scalar f mu flt = OK im ->
+  exists m p, setup_multiplier (preg f) mu = OK (m, p) /\
+    im_labels im =
+      ((nth 0 (dims (preg f)) "" ++ " (" ++ p ++ nth 0 (units (preg f)) "" ++ ")")%string,
+       (nth 1 (dims (preg f)) "" ++ " (" ++ p ++ nth 1 (units (preg f)) "" ++ ")")%string).
+Proof. exact scalar_labels. Qed.
+Print Assumptions C20_labels.
+
+Theorem C20_explicit_multiplier : forall r k p, si_prefix k = Some p ->
+  setup_multiplier r (MSI k) = OK (pow10 (3 * k), p).
+Proof. exact explicit_si_multiplier. Qed.
+Print Assumptions C20_explicit_multiplier.
+
+(* refusals: wrong spatial dimension (every plot kind), wrong component dimension *)
+Theorem C20_refuse_ndim : forall f, ndim (preg f) <> 2%nat ->
+  (forall mu flt, plot_scalar f mu flt = Err RuntimeE) /\
+  (forall mu flt, plot_contour f mu flt = Err RuntimeE) /\
+  (forall mu arg uc cf, plot_vector f mu arg uc cf = Err RuntimeE) /\
+  (forall mu flt lf clim tabs, plot_lightness f mu flt lf clim tabs = Err RuntimeE) /\
+  (forall mu flt, plot_call f mu flt = Err RuntimeE).
+Proof. exact refuse_ndim. Qed.
+Print Assumptions C20_refuse_ndim.
+
+Theorem C20_refuse_nvdim : forall f, ndim (preg f) = 2%nat ->
+  ((1 < pnv f)%nat -> forall mu flt, plot_scalar f mu flt = Err RuntimeE) /\
+  (pnv f <> 1%nat -> forall mu flt, plot_contour f mu flt = Err RuntimeE) /\
+  ((3 < pnv f)%nat -> forall mu flt lf clim tabs, plot_lightness f mu flt lf clim tabs = Err RuntimeE).
+Proof. exact refuse_nvdim. Qed.
+Print Assumptions C20_refuse_nvdim.
+
+(* lightness image, for every colour conversion [hls] (colorsys.hls_to_rgb is a library
+   function): pixel (r, c) is transparent black iff cell (c, r) is hidden, else opaque with
+   hue = angle / 2 pi and the clim-normalised lightness *)
+Theorem C20_lightness : forall (hls : Q -> Q -> Q -> list Q) k0 k1 tp hue light clim hid r c,
+  (r < k1)%nat -> (c < k0)%nat ->
+  nth c (nth r (lightness_rgba hls k0 k1 tp hue light clim hid) []) [] =
+  if hid c r then [0; 0; 0; 0]
+  else hls (normalise_from 0 tp 0 1 (hue c r))
+           (nth (c * k1 + r) (normalise_auto (fst clim) (snd clim) light) 0) 1 ++ [1].
+Proof. exact lightness_rgba_nth. Qed.
+Print Assumptions C20_lightness.
+
+Theorem C20_hue : forall tp v, ~ tp == 0 -> normalise_from 0 tp 0 1 v == v / tp.
+Proof. exact hue_is_angle_over_twopi. Qed.
+Print Assumptions C20_hue.
